@@ -1,3 +1,4 @@
 import Driver.Region
 import Driver.Glyph
 import Driver.Matrix
+import Driver.Composite
